@@ -28,7 +28,17 @@ SHAPES = {
 SURE_INTRINSIC = ["abs", "cos", "sin", "tan", "exp", "log", "max", "min", "mod", "int", "dim", "len", "sum", "any", "all", "real", "sqrt", "nint", "sign", "size", "acos", "iabs", "dcos", "max0", "char"]
 
 
-def text(shape, name, decl, args):
+def text(shape, name, decl, args, U=None):
+    """U: scope id -> spelling of the unit name (letter case may be symbolic)"""
+    src = _text(shape, name, decl, args)
+    if U:
+        for sid, spelled in U.items():
+            for kw in ("program ", "module ", "subroutine ", "function "):
+                src = src.replace(kw + sid + "\n", kw + spelled + "\n").replace(kw + sid + "(", kw + spelled + "(")
+    return src
+
+
+def _text(shape, name, decl, args):
     d = lambda s: ("  real :: " + name + "(10)\n") if s in decl else ""
     r = lambda s: "  y" + s + " = " + name + "(" + args + ")\n"
     if shape == "prog":
@@ -61,7 +71,7 @@ def units(tier):
     for shape, scopes in SHAPES.items():
         ids = [s[0] for s in scopes]
         for decl in _subsets(ids):
-            for n in ((3,) if q else (3, 4)):
+            for n in ((3, 4) if (not q or shape in ("prog",)) else (3,)):
                 us.append(dict(h="scopes", shape=shape, decl=decl, n=n, std="f2008", cost=len(decl) + n))
     return us
 
@@ -115,12 +125,16 @@ def scopes(ctx):
     sure = api.disj([low == s for s in SURE_INTRINSIC if len(s) == p["n"]])
     if ctx.holds(sure):
         ctx.check(k0, "a standard intrinsic function name is not recognised as intrinsic")
-    has_nonletter = api.disj([api.char_in(ch, "0123456789_") for ch in name])
+    has_nonletter = api.disj([api.char_in(ch, "_") for ch in name])
     if ctx.holds(has_nonletter):
         ctx.check(not k0, "a name that cannot be an intrinsic is classified as intrinsic")
     # ---- the program under test
     C.reset()
-    src = text(shape, name, p["decl"], args)
+    U = {}
+    for sid, par in sc:
+        if sid != "b":
+            U[sid] = ctx.chars("u" + sid, 1, sid + sid.upper())
+    src = text(shape, name, p["decl"], args, U)
     ctx.observe("src", src)
     r = C.outcome(lambda: C.parse(src, p["std"], True))
     ctx.check(r[0] == "ok", "valid program rejected (" + r[0] + ")")
